@@ -1037,6 +1037,84 @@ theorem run_other (grow : Nat → Nat) (fresh : Nat) (ops : List Op) (s : Dynami
     rw [step_triple] at this
     exact Mem.otherSame_trans (step_other grow fresh s op m) this
 
+/-! ### results depend on the ledger only through the refusal schedule -/
+theorem malloc_indep (grow : Nat → Nat) (fresh : Nat) (s : DynamicPool) (n : Nat) (m m' : Mem) (hs : m.sched = m'.sched) :
+    (malloc grow fresh s n m).1 = (malloc grow fresh s n m').1 ∧ (malloc grow fresh s n m).2.1 = (malloc grow fresh s n m').2.1 ∧
+    (malloc grow fresh s n m).2.2.sched = (malloc grow fresh s n m').2.2.sched := by
+  have ha := Mem.allocT_sched_congr m m' s.triple hs
+  unfold malloc
+  rw [padding_eq]
+  dsimp only
+  split
+  · exact ⟨rfl, rfl, hs⟩
+  · split
+    · split
+      · exact ⟨rfl, rfl, hs⟩
+      · split
+        · exact ⟨rfl, rfl, hs⟩
+        · rw [ha.1]
+          split
+          · exact ⟨rfl, rfl, ha.2⟩
+          · exact ⟨rfl, rfl, ha.2⟩
+    · exact ⟨rfl, rfl, hs⟩
+
+theorem resetLoop_indep (t : Triple) (ps : List PPage) (m m' : Mem) (hs : m.sched = m'.sched) :
+    (resetLoop t ps m).1 = (resetLoop t ps m').1 ∧ (resetLoop t ps m).2.sched = (resetLoop t ps m').2.sched := by
+  induction ps generalizing m m' with
+  | nil => simp [resetLoop, hs]
+  | cons p rest ih =>
+    cases rest with
+    | nil => exact ⟨rfl, hs⟩
+    | cons q r => simp only [resetLoop]; exact ih _ _ (by rw [Mem.freeT_sched, Mem.freeT_sched]; exact hs)
+
+open Spec.DPool (Op) in
+theorem step_indep (grow : Nat → Nat) (fresh : Nat) (s : DynamicPool) (op : Op) (m m' : Mem) (hs : m.sched = m'.sched) :
+    (step grow fresh s op m).1 = (step grow fresh s op m').1 ∧ (step grow fresh s op m).2.1 = (step grow fresh s op m').2.1 ∧
+    (step grow fresh s op m).2.2.sched = (step grow fresh s op m').2.2.sched ∧ annotate s op m = annotate s op m' := by
+  have ha := Mem.allocT_sched_congr m m' s.triple hs
+  cases op with
+  | malloc n r =>
+    have := malloc_indep grow fresh s n m m' hs
+    exact ⟨this.1, this.2.1, this.2.2, by simp [annotate, ha.1]⟩
+  | calloc c k r =>
+    have := malloc_indep grow fresh s (c * k % sizeMod) m m' hs
+    refine ⟨?_, ?_, ?_, by simp [annotate, ha.1]⟩ <;> simp only [step, calloc]
+    · split
+      · rfl
+      · rw [this.1]; split <;> rfl
+    · split
+      · rfl
+      · rw [this.1, this.2.1]; split <;> rfl
+    · split
+      · exact hs
+      · rw [this.1, this.2.1]
+        split
+        · simp [this.2.2]
+        · exact this.2.2
+  | release p => exact ⟨rfl, rfl, hs, rfl⟩
+  | reset =>
+    have := resetLoop_indep s.triple s.pages m m' hs
+    refine ⟨rfl, ?_, ?_, rfl⟩ <;> simp only [step, reset]
+    · rw [this.1]; split <;> rfl
+    · rw [this.1]; split <;> exact this.2
+  | write off n v => exact ⟨rfl, rfl, by simp [step, write, hs], rfl⟩
+
+open Spec.DPool (Op) in
+/-- two ledgers with the same schedule give the same pointers, the same annotated history and the
+same final pool, for every history -/
+theorem run_indep (grow : Nat → Nat) (fresh : Nat) (ops : List Op) (s : DynamicPool) (m m' : Mem) (hs : m.sched = m'.sched) :
+    (run grow fresh s ops m).1 = (run grow fresh s ops m').1 ∧ (run grow fresh s ops m).2.1 = (run grow fresh s ops m').2.1 ∧
+    (run grow fresh s ops m).2.2.1 = (run grow fresh s ops m').2.2.1 := by
+  induction ops generalizing s m m' with
+  | nil => exact ⟨rfl, rfl, rfl⟩
+  | cons op ops ih =>
+    obtain ⟨h1, h2, h3, h4⟩ := step_indep grow fresh s op m m' hs
+    simp only [run]
+    rw [h1, h2, h4]
+    have := ih (step grow fresh s op m').2.1 (step grow fresh s op m).2.2 (step grow fresh s op m').2.2 h3
+    rw [this.1, this.2.1, this.2.2]
+    exact ⟨rfl, rfl, rfl⟩
+
 /-! ### preconditions of histories -/
 open Spec.DPool (Op) in
 /-- precondition of one operation in state `s` -/
@@ -1369,6 +1447,63 @@ theorem run_config (grow : Nat → Nat) (fresh : Nat) (ops : List Op) (s : DPool
   | cons op ops ih =>
     simp only [DPool.run]
     rw [(ih _).1, (ih _).2]; exact step_config grow fresh s op
+
+theorem step_ab (grow : Nat → Nat) (fresh : Nat) (s : DPool) (op : Op) : (DPool.step grow fresh s op).2.ab = s.ab := by
+  have hfill : ∀ (t : DPool) (off n v : Nat), (t.fillTop off n v).ab = t.ab := by
+    intro t off n v; simp only [DPool.fillTop]; cases t.pages <;> rfl
+  have hmalloc : ∀ n r, (DPool.malloc grow fresh s n r).2.ab = s.ab := by
+    intro n r
+    unfold DPool.malloc; dsimp only
+    split
+    · rfl
+    · split
+      · simp only [DPool.pushBlock]; cases s.pages <;> rfl
+      · split
+        · rfl
+        · split
+          · rfl
+          · split <;> rfl
+  cases op with
+  | malloc n r => exact hmalloc n r
+  | calloc c k r =>
+    simp only [DPool.step, DPool.calloc]
+    split
+    · rw [hfill]; exact hmalloc _ r
+    · exact hmalloc _ r
+  | release p =>
+    simp only [DPool.step, DPool.release]
+    split
+    · split
+      · split <;> rfl
+      · rfl
+    · rfl
+  | reset => simp only [DPool.step, DPool.reset]; split <;> rfl
+  | write off n v => exact hfill s off n v
+
+theorem run_ab (grow : Nat → Nat) (fresh : Nat) (ops : List Op) (s : DPool) : (DPool.run grow fresh s ops).2.ab = s.ab := by
+  induction ops generalizing s with
+  | nil => rfl
+  | cons op ops ih => simp only [DPool.run]; rw [ih, step_ab]
+
+/-- `calloc`'s state is `malloc`'s with the bytes of the newest page filled: page count, newest page
+size and block lists are those of `malloc` -/
+theorem calloc_shape (grow : Nat → Nat) (fresh : Nat) (s : DPool) (c k : Nat) (r : Bool) (a : Nat × Nat)
+    (h : (DPool.calloc grow fresh s c k r).1 = some a) :
+    (DPool.calloc grow fresh s c k r).2.pages.length = (DPool.malloc grow fresh s (c * k) r).2.pages.length ∧
+    (DPool.calloc grow fresh s c k r).2.top.size = (DPool.malloc grow fresh s (c * k) r).2.top.size ∧
+    (DPool.calloc grow fresh s c k r).2.top.blocks = (DPool.malloc grow fresh s (c * k) r).2.top.blocks := by
+  simp only [DPool.calloc] at h ⊢
+  cases hm : (DPool.malloc grow fresh s (c * k) r).1 with
+  | none => simp [hm] at h
+  | some a' =>
+    simp only
+    generalize (DPool.malloc grow fresh s (c * k) r).2 = t
+    cases hp : t.pages <;> simp [DPool.fillTop, DPool.top, hp]
+
+theorem calloc_config (grow : Nat → Nat) (fresh : Nat) (s : DPool) (c k : Nat) (r : Bool) :
+    (DPool.calloc grow fresh s c k r).2.fixed = s.fixed ∧ (DPool.calloc grow fresh s c k r).2.packed = s.packed ∧
+    (DPool.calloc grow fresh s c k r).2.ab = s.ab :=
+  ⟨(step_config grow fresh s (.calloc c k r)).1, (step_config grow fresh s (.calloc c k r)).2, step_ab grow fresh s (.calloc c k r)⟩
 
 /-! ### accounting -/
 
